@@ -246,6 +246,11 @@ var Features = []Feature{
 		t := d.Table("t")
 		t.Idx = append(t.Idx, Idx{Name: "idx_a_part", Parts: []Part{{Col: "a"}}, Where: "a > 0"})
 	}},
+	// a predicate holding what HCL reads as template sequences.
+	{Name: "idx_part_predicate_template_chars", Apply: func(d *DB) {
+		t := d.Table("t")
+		t.Idx = append(t.Idx, Idx{Name: "idx_a_tpl", Parts: []Part{{Col: "a"}}, Where: "b <> '%{x}' AND b <> '${y}'"})
+	}},
 	// a partial index whose keyword is spelled in lower case.
 	{Name: "idx_part_lowercase_where", Apply: func(d *DB) {
 		t := d.Table("t")
@@ -631,7 +636,7 @@ func hclType(t string) string {
 }
 
 func hclStr(s string) string {
-	return `"` + strings.NewReplacer(`\`, `\\`, `"`, `\"`, "\n", `\n`, "${", "$${").Replace(s) + `"`
+	return `"` + strings.NewReplacer(`\`, `\\`, `"`, `\"`, "\n", `\n`, "${", "$${", "%{", "%%{").Replace(s) + `"`
 }
 
 // HCL renders the database as an Atlas HCL document (schema "main").
